@@ -172,6 +172,27 @@ func init() {
 	// ---- C10: load outcomes vs state and results ----
 	plans["C10"] = func(thorough bool) []*Job {
 		var jobs []*Job
+		// concurrent part: a key volunteered by one caller's bulk loader while another caller's load of that key is in
+		// flight and then fails (or succeeds, or is a reload of a present key): the volunteered value is cached
+		{
+			pb, budget := 2, 60
+			if thorough {
+				pb, budget = 3, 600
+			}
+			plain := CacheCfg{}
+			ref := CacheCfg{Refresh: "writing", RefreshTTL: 40, ClockStart: 1 << 40}
+			or := []string{"volunteered", "singleflight", "audit"}
+			for _, other := range []string{"load 1 err", "load 1 panic", "load 1 val", "load 1 nf", "bulk 1,3 err", "bulk 1 full"} {
+				for _, vol := range []string{"bulk 2 extra=1", "bulk 2,3 extra=1"} {
+					jobs = append(jobs, concJob("C10:"+other+"‖"+vol, plain, nil, [][]string{{other}, {vol}}, or, "native", pb, false, 4, budget, "volunteered-judged"))
+				}
+			}
+			// the key is present and being reloaded (explicit refresh that fails) while it is volunteered
+			for _, other := range []string{"refresh 1 err", "bulkrefresh 1,3 err"} {
+				jobs = append(jobs, concJob("C10:"+other+"‖bulk 2 extra=1", ref, []string{"set 1"}, [][]string{{other}, {"bulk 2 extra=1"}}, or, "native", pb, false, 4, budget, "volunteered-judged"))
+				jobs = append(jobs, concJob("C10:"+other+"‖bulkrefresh 2 extra=1", ref, []string{"set 1", "set 2"}, [][]string{{other}, {"bulkrefresh 2 extra=1"}}, or, "native", pb, false, 4, budget, "volunteered-judged"))
+			}
+		}
 		// hook-mismatch: a load that installs over an absent or expired key is a creation ("a successful load caches the value":
 		// with the wrong calculator hook the installed entry is born expired or keeps a stale deadline)
 		kinds := []string{"result-mismatch", "unsupplied-key-in-result", "loader-calls", "phantom-value", "missing-entry", "expired-observed", "event-missing", "wrong-cause", "unexpected-removal", "hook-mismatch"}
@@ -469,8 +490,11 @@ func init() {
 		var jobs []*Job
 		kinds := []string{"result-mismatch", "loader-calls", "refresh-deadline-mismatch", "deadline-mismatch", "refresh-channel", "phantom-value", "missing-entry", "wrong-cause", "unexpected-removal", "event-missing", "hook-mismatch", "inflight-left", "refresh-result-wrong"}
 		for _, ref := range []string{"creating", "writing"} {
-			for _, exp := range []string{"", "writing"} {
+			for _, exp := range []string{"", "writing", "accessing"} {
 				for _, ex := range []string{"caller", "deferred"} {
+					if exp == "accessing" && (ref == "creating" || ex == "deferred") && !thorough {
+						continue
+					}
 					cfg := CacheCfg{Refresh: ref, RefreshTTL: 40, Expiry: exp, Executor: ex, ClockStart: 1 << 40}
 					if exp != "" {
 						cfg.TTL = 100
